@@ -228,3 +228,66 @@ Definition addr_prop (c : list Z * list Z * outcome address * list Z) : bool :=
             eqb_zl (addr_encode (fun _ => digest) a) text
   | Err _ => negb (addr_valid_text digest text)
   end.
+
+(* AddressFromBytes(b) observed = obs: accepted iff b is 25 bytes, version 0,
+   last four bytes = first four digest bytes, and then the address is (0, first 20 bytes) *)
+Definition addr_valid_bytes (digest b : list Z) : bool :=
+  Nat.eqb (List.length b) 25 &&
+  match skipn 20 b with
+  | v :: chk => (v =? 0) && eqb_zl chk (firstn 4 digest)
+  | [] => false
+  end.
+Definition addrb_prop (c : list Z * list Z * outcome address) : bool :=
+  let '(b, digest, obs) := c in
+  match obs with
+  | Ok a => addr_valid_bytes digest b && (a_version a =? 0) && eqb_zl (a_key a) (firstn 20 b) &&
+            eqb_zl (addr_bytes (fun _ => digest) a) b
+  | Err _ => negb (addr_valid_bytes digest b)
+  end.
+
+(* ---- bitcoin addresses (cipher.BitcoinAddress): version ‖ key ‖ first 4 bytes
+   of sha256(sha256(version ‖ key)); `sha2` stands for the double hash *)
+Section Btc.
+  Variable sha2 : list Z -> list Z.
+  Definition btc_checksum (a : address) : list Z := firstn 4 (sha2 (a_version a :: a_key a)).
+  Definition btc_bytes (a : address) : list Z := a_version a :: a_key a ++ btc_checksum a.
+  Definition btc_encode (a : address) : list Z := b58enc (btc_bytes a).
+  Definition btc_from_bytes (b : list Z) : outcome address :=
+    if negb (Nat.eqb (List.length b) 25) then Err "ErrAddressInvalidLength"
+    else
+      match b with
+      | v :: r =>
+          let a := {| a_version := v; a_key := firstn 20 r |} in
+          if negb (eqb_zl (skipn 20 r) (btc_checksum a)) then Err "ErrAddressInvalidChecksum"
+          else if negb (v =? 0) then Err "ErrAddressInvalidVersion"
+          else Ok a
+      | [] => Err "ErrAddressInvalidLength"
+      end.
+  Definition btc_decode (s : list Z) : outcome address :=
+    match b58dec s with Err e => Err e | Ok b => btc_from_bytes b end.
+End Btc.
+
+Definition btc_valid_bytes (digest b : list Z) : bool :=
+  Nat.eqb (List.length b) 25 &&
+  match b with
+  | v :: r => (v =? 0) && eqb_zl (skipn 20 r) (firstn 4 digest)
+  | [] => false
+  end.
+Definition btcb_prop (c : list Z * list Z * outcome address) : bool :=
+  let '(b, digest, obs) := c in
+  match obs with
+  | Ok a => btc_valid_bytes digest b && (a_version a =? 0) &&
+            eqb_zl (btc_bytes (fun _ => digest) a) b
+  | Err _ => negb (btc_valid_bytes digest b)
+  end.
+Definition btc_prop (c : list Z * list Z * outcome address * list Z) : bool :=
+  let '(text, digest, obs, restr) := c in
+  let valid := match b58dec text with
+               | Ok b => btc_valid_bytes digest b && eqb_zl (b58enc b) text
+               | Err _ => false
+               end in
+  match obs with
+  | Ok a => valid && (a_version a =? 0) && Nat.eqb (List.length (a_key a)) 20 && eqb_zl restr text &&
+            eqb_zl (btc_encode (fun _ => digest) a) text
+  | Err _ => negb valid
+  end.
